@@ -3,6 +3,7 @@ package main
 import (
 	"errors"
 	"fmt"
+	"io"
 	"net"
 	"runtime"
 	"strings"
@@ -40,20 +41,35 @@ type realSess struct {
 	w            *world
 }
 
-func (r *realSess) peerReadLoop() {
+func (r *realSess) peerReadLoop() { r.peerReadLoopFrom(0, 0) }
+
+// peerReadLoopFrom reads to the end of the stream.  With sendAmp > 1 every payload byte was handed to Session.Send
+// sendAmp times: a group of sendAmp bytes on the wire is folded back into one symbol.  A group whose bytes are not
+// all equal (only possible when bytes arrive repeated or out of order) is reported as the symbol 255, which no
+// payload contains.  raw / first: bytes of the first group already taken by peerPartialLoop.
+func (r *realSess) peerReadLoopFrom(raw int, first byte) {
 	buf := make([]byte, 64<<10)
 	fold := 1
 	if r.w != nil && r.w.sendAmp > 1 {
 		fold = r.w.sendAmp // every payload byte was sent sendAmp times: fold them back
 	}
-	raw := 0
+	mixed := false
 	for {
 		n, err := r.peer.Read(buf)
 		r.mu.Lock()
 		for j := 0; j < n; j++ {
+			if raw%fold == 0 {
+				first, mixed = buf[j], false
+			} else if buf[j] != first {
+				mixed = true
+			}
 			raw++
 			if raw%fold == 0 {
-				r.inbox = append(r.inbox, buf[j])
+				if mixed {
+					r.inbox = append(r.inbox, 255)
+				} else {
+					r.inbox = append(r.inbox, buf[j])
+				}
 			}
 		}
 		if err != nil {
@@ -63,6 +79,26 @@ func (r *realSess) peerReadLoop() {
 		}
 		r.mu.Unlock()
 	}
+}
+
+// peerPartialLoop is the peer of the partial-write class: it takes k bytes (fewer than one payload symbol) of the
+// first write and then stays away until a Write of the session has returned an error - an event the wrapper sees,
+// not a pause - and then reads on to the end of the stream.  The bound on the wait only keeps the goroutine from
+// staying for ever after a run against a broken tree; nothing is concluded from it.
+func (r *realSess) peerPartialLoop(k int) {
+	buf := make([]byte, k)
+	n, err := io.ReadFull(r.peer, buf)
+	if err == nil {
+		select {
+		case <-r.fc.werr:
+		case <-time.After(30 * time.Second):
+		}
+	}
+	var first byte
+	if n > 0 {
+		first = buf[0]
+	}
+	r.peerReadLoopFrom(n, first)
 }
 
 func (r *realSess) startReading() {
@@ -250,6 +286,7 @@ type world struct {
 	decoys   []*stcp.Server // other servers of this process, started with other options, idle
 	srvPtr   string
 	slowExit bool // the exit callback takes 300 us
+	partial  int  // partial-write class: see scenario.partial
 }
 
 // watchdog measures how late a 2 ms tick can be in this process while a scenario runs: the scheduling latency the
@@ -517,6 +554,11 @@ func (w *world) issue(l *label, natural bool) error {
 		r.started.Store(true)
 		if l.reads {
 			r.startReading()
+		} else if w.partial > 0 && w.sendAmp > 1 && w.partial < w.sendAmp {
+			r.mu.Lock()
+			r.reading = true
+			r.mu.Unlock()
+			go r.peerPartialLoop(w.partial)
 		}
 		s.Start()
 		return nil
